@@ -5,6 +5,7 @@ import (
 	"go/ast"
 	"go/token"
 	"go/types"
+	"strings"
 )
 
 func (fc *FnCtx) block(st *State, list []ast.Stmt) {
@@ -117,6 +118,9 @@ func (fc *FnCtx) havocAssigned(st *State, n ast.Node, heap bool) {
 			nv := fc.freshSort(fc.keyName(k), old.Sort)
 			nv.T = old.T
 			st.vars[k] = nv
+			if hk, ok := k.(heapKey); ok {
+				fc.wlog = append(fc.wlog, wrec{hk, "*"})
+			}
 		}
 		cur := fc.get(st, allocKey, SInt, nil)
 		na := fc.freshSort("alloc", SInt)
@@ -237,6 +241,7 @@ func (fc *FnCtx) declStmt(st *State, s *ast.DeclStmt) {
 			if i < len(vs.Values) {
 				v := fc.valueFor(st, vs.Values[i], obj.Type())
 				fc.bindLocalFunc(obj, vs.Values[i])
+				fc.establish(st, obj, vs.Values[i], v)
 				st.vars[obj] = v
 				continue
 			}
@@ -248,6 +253,28 @@ func (fc *FnCtx) declStmt(st *State, s *ast.DeclStmt) {
 			st.vars[obj] = z
 		}
 	}
+}
+
+// establish: a function literal bound to a local that has its own (separately verified) contract with an
+// `establishes P` clause makes the ghost predicate P true of the closure value.
+func (fc *FnCtx) establish(st *State, obj types.Object, rhs ast.Expr, val Term) {
+	if _, ok := ast.Unparen(rhs).(*ast.FuncLit); !ok {
+		return
+	}
+	outer := fc.contract.Key
+	if i := strings.Index(outer, "$"); i >= 0 {
+		outer = outer[:i]
+	}
+	c := fc.prog.ContractFor(outer+"$"+obj.Name(), fc.contract.PkgPath)
+	if c == nil || c.Opts["establishes"] == "" {
+		return
+	}
+	g := fc.lookupGhostFunc(c.PkgPath, c.Opts["establishes"])
+	if g == nil {
+		fc.fail("establishes %s: no such ghost predicate", c.Opts["establishes"])
+	}
+	ce := fc.cenvAt(st, token.NoPos)
+	fc.assume(st, ce.ghostCall(g, []Term{val}))
 }
 
 func (fc *FnCtx) bindLocalFunc(obj types.Object, rhs ast.Expr) {
@@ -333,6 +360,7 @@ func (fc *FnCtx) assignStmt(st *State, s *ast.AssignStmt) {
 			if id, ok := l.(*ast.Ident); ok {
 				if obj := fc.info().Defs[id]; obj != nil {
 					fc.bindLocalFunc(obj, s.Rhs[i])
+					fc.establish(st, obj, s.Rhs[i], vals[i])
 				}
 			}
 		}
@@ -913,7 +941,7 @@ func (fc *FnCtx) returnStmt(st *State, s *ast.ReturnStmt) {
 		fc.inlineReturn(st, vals, s.Pos())
 		return
 	}
-	sig := fc.src.Obj.Type().(*types.Signature)
+	sig := fc.fnSig
 	if len(s.Results) == 1 && sig.Results().Len() > 1 {
 		vals = fc.call(st, ast.Unparen(s.Results[0]).(*ast.CallExpr))
 	} else {
@@ -940,6 +968,7 @@ func (fc *FnCtx) doReturn(st *State, vals []Term, pos token.Pos, text string) {
 	fc.runDefers(st)
 	// anchored "at return" clauses, then postconditions
 	fc.runAnchors(st, "return", "", ord, pos, nil)
+	fc.assertPkgInvs(st, fmt.Sprintf("return#%d", ord), pos)
 	for i, en := range fc.contract.Ensures {
 		t := fc.contractExprAt(st, en, token.NoPos)
 		fc.assert(st, fmt.Sprintf("post#%s@return#%d", clauseLabel(en, i), ord), "post", t, pos, "ensures "+en.Src+"   at: "+text)
